@@ -176,8 +176,18 @@ def mapping_schedules(ctx, rng, tag, n_cells, chunk_size, n_processors, limit):
         model_cases.append((401, [1, [rank[c] for c in cell_ids], tables, [nrank[nm] for nm in names], list(order)]))
         model_cases.append((403, [p, len(chunks_o), [0] * len(chunks_o),
                                   [rng.randrange(0, 4) for _ in chunks_o], stream]))
+        # 407: the stage as a whole (Gather.mapping_result: chunks derived from (n_cells, p, chunk_size), the
+        # dispatch loop run with bound p on a generated world, one seed per chunk, gather in the observed completion
+        # order, re_order_blob) -> every cell, in the order of the result, with the seed of the worker that mapped it
+        model_cases.append((407, [n_cells, p, chunk_size, [rank[c] for c in cell_ids], [0] * len(chunks_o),
+                                  [rng.randrange(0, 4) for _ in chunks_o], stream, list(order)]))
+        seed_of_row = {}
+        for (r0, r1), (_, sd) in zip(chunks_o, seeds_o):
+            for r in range(r0, r1):
+                seed_of_row[r] = sd
         meta.append({'what': what, 'chunks': chunks_o, 'seeds': seeds_o, 'order': list(order), 'p': p,
-                     'observed_final': obs_final(dig), 'stream': stream})
+                     'observed_final': obs_final(dig), 'stream': stream,
+                     'observed_cell_seed': [[rk, seed_of_row.get(row)] for rk, row in obs_final(dig)]})
 
     model_part(tr0, completion_order(tr0, 'mapping'), n_processors, 'baseline', dig0)
     missed = 0
@@ -235,7 +245,7 @@ def mapping_schedules(ctx, rng, tag, n_cells, chunk_size, n_processors, limit):
     # (a) model
     outs = ctx.model(model_cases)
     for i, m in enumerate(meta):
-        ch, ga, se = outs[3 * i], outs[3 * i + 1], outs[3 * i + 2]
+        ch, ga, se, mr = outs[4 * i], outs[4 * i + 1], outs[4 * i + 2], outs[4 * i + 3]
         rep = dict(m, kind='mapping-model', n_cells=n_cells, chunk_size=chunk_size)
         if ch[0] != 0 or ch[1][1] != m['chunks']:
             ctx.violation(f'{m["what"]}: chunks {m["chunks"]} but Gather.run_chunks says {ch}',
@@ -248,6 +258,14 @@ def mapping_schedules(ctx, rng, tag, n_cells, chunk_size, n_processors, limit):
         if se[0] != 0 or se[1][0] != [0] or se[1][1] != exp_seeds or m['seeds'] != exp_seeds:
             ctx.violation(f'{m["what"]}: seeds seen by the workers {m["seeds"]}; stream {m["stream"]}; Gather.run_seeds_sx {se}',
                           dict(rep, model=se, **{'class': 'corr:Gather.run_seeds_sx'}), no_input=True)
+        if mr[0] != 0 or mr[1] != [m['observed_cell_seed']]:
+            ctx.violation(f'{m["what"]}: (cell, seed of its worker) in result order {m["observed_cell_seed"]} differs from '
+                          f'Gather.mapping_result {mr}',
+                          dict(rep, model=mr, **{'class': 'corr:Gather.mapping_result'}), no_input=True)
+        else:
+            ctx.traces_validated += 1
+            ctx.dist('mapping_result', f'p={m["p"]} chunks={len(m["chunks"])} cells={len(m["observed_cell_seed"])} '
+                     f'seeds={len({x[1] for x in m["observed_cell_seed"]})}: agrees')
     ctx.extra['schedules_missed'] = ctx.extra.get('schedules_missed', 0) + missed
     ctx.sample({'stage': 'mapping', 'n_cells': n_cells, 'chunk_size': chunk_size, 'k': k,
                 'classes': {str(c): [p for p, _ in l] for c, l in classes.items()}})
